@@ -21,7 +21,7 @@ PROP = 'C07'
 MANIFEST = dict(
     category='exploration', design_ref='DESIGN.md §3 C07',
     technique='exhaustive enumeration of documents x 15 supply routes x 15 repeat routes x directory orders through the real wn.add, canonical/exact table-dump equality',
-    text='For each document (single lexicon, two lexicons, extension over an installed base, nasty-payload document, lexicon-level frame carrying a senses attribute, ILI file) the same bytes are supplied through every route (xml, gz, xz, package with extra files, collection, tar/tar.gz/tar.xz of file/package/collection, lmf.load + add_lexical_resource); the canonical table dump must equal the plain-file reference; a second add through every route must leave the exact dump unchanged; an extension without its base must be skipped as a whole without an exception; input files (sha256) and the in-memory resource (deep copy) must be unmodified; for collections every order in which the directory can list its packages is explored, and a collection holding two versions of one lexicon id must give the same wn.lexicons() order and the same bare-id resolution under every such order.',
+    text='For each document (single lexicon, two lexicons, extension over an installed base, nasty-payload document, lexicon-level frame carrying a senses attribute, ILI file) the same bytes are supplied through every route (xml, gz, xz, package with extra files, collection, tar/tar.gz/tar.xz of file/package/collection, lmf.load + add_lexical_resource); the canonical table dump must equal the plain-file reference; a second add through every route must leave the exact dump unchanged; an extension without its base must be skipped as a whole without an exception; input files (sha256) and the in-memory resource (deep copy) must be unmodified; for collections every order in which the directory can list its packages is explored, and a collection holding two versions of one lexicon id must give the same wn.lexicons() order and the same bare-id resolution under every such order. A file holding a base and its extension is supplied through every route, also when the base alone is already installed (the extension must still be added: the result must equal the bundle added to an empty database).',
     note='An extension bundled in the same file as its own base is not generated (the statement does not say whether the pre-check or the post-state decides). Cross-lexicon row order and the shared lookup inventories are compared as sets.',
 )
 
